@@ -136,6 +136,18 @@ def gen_balanced_threshold(rng):
     return {"streams": ss, "utilities": P.gen_utilities(rng, ss, kind=rng.choice(["none", "none", "outside"])), "options": {}}
 
 
+def gen_loop_heating_direction(rng):
+    """The only hot-capable utility is a gliding loop ENTERED IN THE HEATING DIRECTION (t_supply is its cold end, t_target
+    its hot end; type Hot or Both) whose band straddles the hottest shifted cold target: it cannot deliver the top of
+    the demand, so the default hot utility is needed."""
+    for _ in range(40):
+        pr = c03.gen_util_problem(rng)
+        lp = [u for u in pr["utilities"] if u["name"] == "LOOP" and u["type"] in ("Hot", "Both") and u["t_supply"] < u["t_target"]]
+        if lp and not any(u["type"] == "Hot" and u["name"] != "LOOP" for u in pr["utilities"]):
+            return pr
+    return pr
+
+
 def run(ctx: Ctx):
     ctx.rule = ("the service on random stream sets x zone partitions x utility sets (none, isothermal, gliding, several levels): for "
                 "EVERY record returned (direct integration of every zone, total-process sum, total-site) Qh - Qc = cold - hot duty of "
@@ -146,6 +158,7 @@ def run(ctx: Ctx):
     probs = [c["problem"] for c in corpus if c.get("kind") == "service"]
     probs += [c03.gen_util_problem(ctx.rng) for _ in range(ctx.n(300, 6000))]
     probs += [gen_balanced_threshold(ctx.rng) for _ in range(ctx.n(60, 1200))]
+    probs += [gen_loop_heating_direction(ctx.rng) for _ in range(ctx.n(60, 600))]
     for pr in probs:
         nz = len({s["zone"] for s in pr["streams"]})
         ctx.count({"kind": "service", "n_streams": len(pr["streams"]), "zones": sorted({s["zone"] for s in pr["streams"]}), "n_util": len(pr["utilities"])},
